@@ -546,6 +546,24 @@ func lookupArshaler(t reflect.Type) *arshaler {
 	return v.(*arshaler)
 }
 
+// arrayHasNext reports whether another element follows in the JSON array
+// currently being decoded. If the next token cannot even be peeked at
+// (e.g., due to an I/O error), then it reports that pending error right away.
+// Otherwise, the logic for the element may call PeekKind again,
+// which re-evaluates the input, and a transient I/O error would be forgotten
+// such that a following ']' is mistaken for the element.
+func arrayHasNext(dec *jsontext.Decoder) (bool, error) {
+	switch dec.PeekKind() {
+	case ']':
+		return false, nil
+	case jsontext.KindInvalid:
+		if _, err := dec.ReadToken(); err != nil {
+			return false, err
+		}
+	}
+	return true, nil
+}
+
 var stringsPools = &sync.Pool{New: func() any { return new(stringSlice) }}
 
 type stringSlice []string
